@@ -345,6 +345,30 @@ claim('C19',
       'FD92 and product string "EiBotBoard".',
       'DESIGN.md section 3, C19')
 
+claim('C10',
+      'one-iteration abstract interpretation of the loop nest with symbolic index and opaque '
+      'node list (exits, back edges, path conditions, list effects); role table of the split '
+      'verified against the dependency source by polynomial identity; decision table of the '
+      'flatness predicate',
+      'PARTIAL (termination not decided). Decides structurally: D1 the piece handed to the '
+      'splitter is (s_p[i-1][1], s_p[i-1][2], s_p[i][0], s_p[i][1]); with one=(P0,M1,M4,M), '
+      'two=(M,M5,M3,P3) (checked on the installed bezmisc source as an identity of normal forms '
+      'at t=1/2) every splitting path stores exactly node[i-1].out <- M1, node[i].in <- M3 and '
+      'inserts [M4,M,M5] at index i, nothing else - original nodes and outer handles survive, '
+      'the inserted node is the curve point at the split parameter, both halves are the de '
+      'Casteljau halves. D2 the split parameter is the literal 1/2 (dyadic). D3 the slice store '
+      'inserts without overwriting (s_p[i:h], h<=1<=i, or s_p[i:i], or insert). D4 the function '
+      'returns only on i >= len(s_p); i advances by exactly one, with no store, only on the path '
+      'where points_in_tolerance(current piece, flat) held with the caller\'s flat unchanged; '
+      'after a split i is unchanged (both halves are re-tested), and a split happens only when '
+      'the predicate was false - hence on return every piece was found flat by the predicate; '
+      'the predicate has the point-to-chord decision table (27 rows, shared with C09-D4). NOT '
+      'decided: termination (metric convergence over floats; flat*flat underflow never '
+      'terminates), floating-point error of midpoints.',
+      'Trusted: Python ast, vf/interp.py, list slice-assignment semantics, '
+      'ink_extensions.bezmisc (roles verified from source when installed under /venv).',
+      'DESIGN.md section 3, C10')
+
 
 def build():
     checks = []
